@@ -905,13 +905,13 @@ def rule_codec_framing(prog, rep):
                               'first decoded NUL byte, so binary payloads are reported shorter than they are' % (name, canon(e)[:40]))
 
 
-def rule_codec_purity(prog, rep, rid='TB17'):
+def rule_codec_purity(prog, rep, rid='TB17', unit='src/utilities/qencode.c', what='codecs'):
     """The codec functions keep no mutable static state: no variable with static storage (function-static or file-scope,
     not const) is written by them.  A lazily built table guarded by an unsynchronised flag makes the first concurrent calls
     decode with a half-built table."""
-    rep.rule(rid, 'the codecs keep no mutable static state (no write to a non-const static or file-scope variable): they are '
-                  'functions of their input only, also when first called from several threads at once')
-    unit = 'src/utilities/qencode.c'
+    rep.rule(rid, 'the %s keep no mutable static state (no write to a non-const static or file-scope variable, directly or by handing '
+                  'it to a callee as a writable buffer): they are functions of their input only, also when called from several threads '
+                  'at once' % what)
     u = prog.unit(unit)
     for f in sorted(prog.funcs_in(unit), key=lambda x: x.line or 0):
         if f.body is None:
@@ -929,6 +929,29 @@ def rule_codec_purity(prog, rep, rid='TB17'):
                 tgt = children(x)[0]
             elif x.get('kind') == 'CallExpr' and prog.callee_name(x) in ('memset', 'memcpy', 'memmove', 'strcpy') and len(children(x)) > 1:
                 tgt = children(x)[1]
+            if tgt is None and x.get('kind') == 'CallExpr':
+                # a static array handed to a callee through a parameter that is not pointer-to-const (read(fd, buf, n), ...)
+                callee_t = (qtype(strip(children(x)[0])) or '')
+                ptypes = []
+                m_ = callee_t[callee_t.find('(') + 1:callee_t.rfind(')')] if '(' in callee_t else ''
+                depth_, cur_ = 0, ''
+                for ch_ in m_:
+                    if ch_ == ',' and depth_ == 0:
+                        ptypes.append(cur_.strip())
+                        cur_ = ''
+                    else:
+                        depth_ += ch_ in '(['
+                        depth_ -= ch_ in ')]'
+                        cur_ += ch_
+                if cur_.strip():
+                    ptypes.append(cur_.strip())
+                for k_, a_ in enumerate(children(x)[1:]):
+                    sa_ = strip(a_)
+                    if sa_.get('kind') == 'DeclRefExpr' and (sa_.get('referencedDecl') or {}).get('name') in (statics | globs):
+                        pt_ = ptypes[k_] if k_ < len(ptypes) else ''
+                        if not pt_.startswith('const ') and (pt_.endswith('*') or pt_ == '' or pt_ == '...'):
+                            bad.append((x.get('_line'), (sa_.get('referencedDecl') or {}).get('name')))
+                continue
             if tgt is None:
                 continue
             for y in walk(tgt):
@@ -937,8 +960,8 @@ def rule_codec_purity(prog, rep, rid='TB17'):
         rep.instance(rid)
         rep.oblige(rid, not bad, {'function': f.name})
         for (line, nm) in sorted(set(bad))[:2]:
-            rep.violation(rid, f, line, 'static-write:%s' % nm, '%s writes the static variable %s: the codec has hidden state shared between '
-                          'calls (and between threads)' % (f.name, nm))
+            rep.violation(rid, f, line, 'static-write:%s' % nm, '%s writes the static variable %s: hidden state shared between calls (and between threads) - '
+                          'the result no longer depends on the input alone' % (f.name, nm))
 
 
 def rule_query_pairs_stored(prog, rep, rid='TB18'):
